@@ -276,7 +276,7 @@ def handleIO (op : String) (args : List String) : IO (Option String) := do
         (match kv rest "vals" with
           | some want =>
             (match r.1.1.sys.cfg? tgt with
-              | some (c : Cfg) => encVals c.aview == want
+              | some (c : Cfg) => encVals c.view == want
               | none => want == "-")
           | none => true) &&
         (match kv rest "devlog" with
